@@ -653,10 +653,25 @@ func genBytes(r *coqfmt.Rand, id int) Case {
 		raw = extFrame([]string{"tx", "block", "foobar"}[r.Intn(3)], []byte{1, 2, 3, 4, 5}, l)
 	case 5: // hostile counts: varint 2^40 in headers / inv / addr / tx inputs
 		big := []byte{0xff, 0, 0, 0, 0, 0, 1, 0, 0}
-		cmd := []string{"headers", "inv", "addr", "tx"}[r.Intn(4)]
+		cmd := []string{"headers", "inv", "addr", "tx", "tx_script", "tx_outputs", "block_txs", "reject", "version"}[r.Intn(9)]
 		p := append([]byte{}, big...)
-		if cmd == "tx" {
+		switch cmd {
+		case "tx": // version, input count
 			p = append([]byte{1, 0, 0, 0}, big...)
+		case "tx_script": // version, 1 input, outpoint, script length
+			cmd = "tx"
+			p = append([]byte{1, 0, 0, 0, 1}, make([]byte, 36)...)
+			p = append(p, big...)
+		case "tx_outputs": // version, 0 inputs, output count
+			cmd = "tx"
+			p = append([]byte{1, 0, 0, 0, 0}, big...)
+		case "block_txs": // 80-byte header, tx count (handled only when that block is requested: discarded otherwise)
+			cmd = "block"
+			p = append(make([]byte, 80), big...)
+		case "reject": // string lengths
+			p = append([]byte{}, big...)
+		case "version": // fixed part, then a user agent length
+			p = append(make([]byte, 80), big...)
 		}
 		p = append(p, bytes.Repeat([]byte{7}, r.Intn(100))...)
 		raw = frame(cmd, p)
@@ -710,12 +725,32 @@ func runBytes(c *Case, self, dir string) {
 	if status != 0 || !returned {
 		o := out.String()
 		c.note = "died"
+		// the first non-runtime frame of the dying goroutine: the call site of the allocation / panic
+		site := ""
+		if i := strings.Index(o, "\ngoroutine "); i >= 0 {
+			for _, ln := range strings.Split(o[i:], "\n") {
+				if strings.HasPrefix(ln, "github.com/") || strings.HasPrefix(ln, "verifharness/") {
+					site = ln
+					if j := strings.Index(site, "("); j > 0 {
+						// keep "pkg.func" / "pkg.(*T).method", drop the argument list
+						k := strings.LastIndex(site, "(")
+						if strings.Contains(site[:k], ".") {
+							site = site[:k]
+						}
+					}
+					break
+				}
+			}
+		}
 		switch {
-		case strings.Contains(o, "out of memory") && strings.Contains(o, "pkg/wire.(*MsgTx).BtcDecode"):
-			// D18: the dependency sizes the input/output arrays of a tx by the declared count
-			c.Trigger = "dep-wire-msgtx-decode-alloc"
+		case (strings.Contains(o, "out of memory") || strings.Contains(o, "makeslice")) && strings.HasPrefix(site, "github.com/tokenized/pkg/wire."):
+			// D18 family: a decoder of the dependency sizes an allocation by a declared count / length
+			c.Trigger = "dep-wire-alloc:" + strings.TrimPrefix(site, "github.com/tokenized/pkg/wire.")
 		case status == 2:
 			c.Trigger = "hang"
+		}
+		if site != "" {
+			o = "call site: " + site + "\n" + o
 		}
 		if len(o) > 1500 {
 			o = o[:1500]
